@@ -15,7 +15,7 @@ import (
 // recorded for the action - with an inert and with a symbolic data value, and compares the
 // two token streams.
 
-var c01ShapePrefixes = []string{"", "<p>", `<a href="`, `<p title='`, "<p ", "<p", "<title>", "<script>", "<!--", `<p title=`, `<p title`, `<a href`}
+var c01ShapePrefixes = []string{"", "<p>", `<a href="`, `<p title='`, "<p ", "<p", "<title>", "<script>", "<!--", `<p title=`, `<p title`, `<a href`, "<iframe>"}
 
 func c01TextNode(s string) *parse.TextNode {
 	return &parse.TextNode{NodeType: parse.NodeText, Text: []byte(s)}
@@ -32,6 +32,14 @@ func c01Rewritten(e *escaper, n *parse.TextNode) string {
 	return string(n.Text)
 }
 
+// c01ShapeSuffix closes what the prefix opened where the template could not end in text otherwise.
+func c01ShapeSuffix(p string) string {
+	if p == "<iframe>" {
+		return "</iframe>"
+	}
+	return ""
+}
+
 func vHarness_C01_shape() {
 	p := c01ShapePrefixes[vParam("prefix")]
 	s0 := vNondetString("t0", vParam("n0"))
@@ -45,7 +53,7 @@ func vHarness_C01_shape() {
 	vASCII(s2)
 	vASCII(s3)
 	vASCII(s4)
-	t0, t1, t2, t3, t4 := c01TextNode(p+s0), c01TextNode(s1), c01TextNode(s2), c01TextNode(s3), c01TextNode(s4)
+	t0, t1, t2, t3, t4 := c01TextNode(p+s0), c01TextNode(s1), c01TextNode(s2), c01TextNode(s3), c01TextNode(s4+c01ShapeSuffix(p))
 	action := &parse.ActionNode{NodeType: parse.NodeAction, Pipe: c01DotPipe()}
 	ifn := &parse.IfNode{BranchNode: parse.BranchNode{NodeType: parse.NodeIf, Pipe: c01DotPipe(),
 		List: &parse.ListNode{NodeType: parse.NodeList, Nodes: []parse.Node{t1}}, ElseList: &parse.ListNode{NodeType: parse.NodeList, Nodes: []parse.Node{t2}}}}
